@@ -2,6 +2,7 @@ import ElaVerif.Lemmas.P2PFrame
 import ElaVerif.Gen.C35
 import ElaVerif.Model.P2PMsg
 import ElaVerif.Lemmas.Bloom
+import ElaVerif.Lemmas.P2PCodec
 /-!
 # C35 — P2P framing rejects anything but well-formed, authentic messages
 
@@ -682,6 +683,147 @@ theorem C35_filterload_exceeds_max (bits : Bloom.Bytes) (hf tw : UInt32) (flags 
     simp only [hlen, Bloom.maxFilterLoadFilterSize, List.length_nil]
     simp
   · decide
+
+/-! ## messages, not only frames -/
+
+def cmdStr (c : Bytes) : String := String.ofList (c.map fun b => Char.ofNat b.toNat)
+
+/-- the decoder a stack runs on the payload of a command: the modelled codec of `Model/P2PCodec.lean`
+    where there is one; a command without a model keeps its raw payload -/
+def codecDecode (stack : String) : Bytes → Bytes → Option P2PCodec.Msg :=
+  fun c p => match P2PCodec.layoutOfStr stack (cmdStr c) with
+    | some l => P2PCodec.decodeMsg l p
+    | none => some (.raw p)
+
+/-- **A message written by the node is read back as an equal message — the message, not just its
+    bytes.**  For every command whose codec is modelled (main net: all 19; DPoS: 18 of 23) and every
+    well-formed message value `m` of its layout: if `WriteMessage` sends `Serialize m`, the reader's
+    `Deserialize` yields exactly `m`.  Combines the frame theorem with the codec round trips
+    (wire schemas of C04, the transaction/block envelope, `filterload` of C39, `version`). -/
+theorem C35_message_roundtrip (H : Bytes → Bytes) (table : List (Bytes × Nat)) (stack : String)
+    (magic max : Nat) (cmd rest frame : Bytes) (l : P2PCodec.Layout) (m : P2PCodec.Msg)
+    (hH : ∀ b, 4 ≤ (H b).length) (hmagic : magic < 2 ^ 32) (hcmd : CmdOK cmd)
+    (hlook : lookup table cmd = some max) (hl : P2PCodec.layoutOfStr stack (cmdStr cmd) = some l)
+    (hwf : P2PCodec.wfMsg l m = true)
+    (hw : writeMessage H magic cmd max (P2PCodec.encodeMsg l m) = .ok frame) :
+    readMessage H table (codecDecode stack) magic (frame ++ rest) =
+      ⟨.ok (cmd, m), (P2PCodec.encodeMsg l m).length, 24 + (P2PCodec.encodeMsg l m).length⟩ := by
+  apply C35_write_read H table (codecDecode stack) magic max cmd _ rest frame m hH hmagic hcmd hlook _ hw
+  simp only [codecDecode, hl]
+  exact P2PCodec.decodeMsg_encodeMsg l m hwf
+
+/-- T-gen: which commands of the regenerated switches have a modelled codec.  Main net: every
+    command.  DPoS: everything except `version` (layout depends on a process-global payload version),
+    `res_blc`, `res_con` (consensus status snapshots) and `ill_vote` — these keep the frame-level
+    theorem with the codec as a parameter. -/
+theorem C35_gen_codec_coverage :
+    (elanetStack.filter fun e => (P2PCodec.layoutOfStr "elanet" e.caseCmd).isNone).map (·.caseCmd) = [] ∧
+    (dposStack.filter fun e => (P2PCodec.layoutOfStr "dpos" e.caseCmd).isNone).map (·.caseCmd) =
+      ["version", "res_blc", "res_con", "ill_vote"] ∧
+    (Gen.C35.checkAddr.filter fun e => (P2PCodec.layoutOfStr "checkaddr" e.caseCmd).isNone).map (·.caseCmd) = [] := by
+  decide
+
+/-! ## what an honest writer can make a reader allocate -/
+
+/-- `WriteMessage` never puts more than 32 MiB (and never more than the type's `MaxLength`) behind
+    a header … -/
+theorem C35_writer_cap (H : Bytes → Bytes) (magic max : Nat) (cmd payload frame : Bytes)
+    (hw : writeMessage H magic cmd max payload = .ok frame) :
+    payload.length ≤ maxMessagePayload ∧ payload.length ≤ max := by
+  unfold writeMessage at hw
+  split at hw
+  · cases hw
+  · rename_i hbig
+    split at hw
+    · cases hw
+    · rename_i hmax
+      simp [payloadTooBig] at hbig
+      exact ⟨hbig, by omega⟩
+
+/-- … so although the DPoS switch *declares* 80 000 000 bytes for `res_blc` / `res_con` (regenerated
+    fact), a frame produced by any node running this writer makes the reader allocate at most
+    32 MiB = 33 554 432 bytes: the 80 MB can only be requested by a peer that does not run this code.
+    (The reader's own bound stays `C35_gen_alloc_bound`.) -/
+theorem C35_honest_alloc (H : Bytes → Bytes) (table : List (Bytes × Nat)) (decode : Bytes → Bytes → Option α)
+    (magic max : Nat) (cmd payload rest frame : Bytes) (m : α)
+    (hH : ∀ b, 4 ≤ (H b).length) (hmagic : magic < 2 ^ 32) (hcmd : CmdOK cmd)
+    (hlook : lookup table cmd = some max) (hdec : decode cmd payload = some m)
+    (hw : writeMessage H magic cmd max payload = .ok frame) :
+    (readMessage H table decode magic (frame ++ rest)).alloc ≤ 33554432 ∧
+    (dposStack.filter fun e => e.max > 33554432).map (fun e => (e.caseCmd, e.max)) =
+      [("res_blc", 80000000), ("res_con", 80000000)] ∧
+    (elanetStack.filter fun e => e.max > 33554432) = [] := by
+  have hr := C35_write_read H table decode magic max cmd payload rest frame m hH hmagic hcmd hlook hdec hw
+  have hc := (C35_writer_cap H magic max cmd payload frame hw).1
+  refine ⟨?_, by decide, by decide⟩
+  rw [hr]
+  simpa [maxMessagePayload] using hc
+
+/-! ## the read loop: an error ends the session -/
+
+/-- the read loop on written traffic followed by anything: the written messages are delivered and
+    the loop continues on the tail with the remaining fuel -/
+theorem C35_stream_then (H : Bytes → Bytes) (table : List (Bytes × Nat)) (decode : Bytes → Bytes → Option α)
+    (magic : Nat) (hH : ∀ b, 4 ≤ (H b).length) (hmagic : magic < 2 ^ 32) :
+    ∀ (msgs : List (Bytes × Nat × Bytes)) (wire tail : Bytes) (k : Nat),
+      (∀ x ∈ msgs, CmdOK x.1 ∧ lookup table x.1 = some x.2.1 ∧ (decode x.1 x.2.2).isSome) →
+      writeStream H magic msgs = some wire →
+      readStream H table decode magic (msgs.length + k) (wire ++ tail) =
+        (expected decode msgs ++ (readStream H table decode magic k tail).1,
+         (readStream H table decode magic k tail).2) := by
+  intro msgs
+  induction msgs with
+  | nil =>
+    intro wire tail k _ hw
+    simp only [writeStream] at hw
+    cases hw
+    simp [expected]
+  | cons x rest ih =>
+    intro wire tail k hok hw
+    obtain ⟨cmd, max, payload⟩ := x
+    have hx := hok (cmd, max, payload) (by simp)
+    obtain ⟨m, hdec⟩ := Option.isSome_iff_exists.mp hx.2.2
+    unfold writeStream at hw
+    split at hw
+    · rename_i f fs hf hfs
+      cases hw
+      have hread := C35_write_read H table decode magic max cmd payload (fs ++ tail) f m hH hmagic hx.1 hx.2.1 hdec hf
+      have hlen := writeMessage_length H magic max cmd payload f hH hf
+      have hne : (f ++ (fs ++ tail)).isEmpty = false := by
+        cases f with
+        | nil => simp at hlen; omega
+        | cons _ _ => rfl
+      have hdrop : (f ++ (fs ++ tail)).drop (24 + payload.length) = fs ++ tail := drop_app hlen
+      have ih1 := ih fs tail k (fun z hz => hok z (by simp [hz])) hfs
+      rw [List.append_assoc]
+      rw [List.length_cons, show rest.length + 1 + k = (rest.length + k) + 1 by omega]
+      simp only [readStream, hne, hread]
+      rw [hdrop, ih1]
+      simp [expected, hdec]
+    · cases hw
+
+/-- **Any framing error ends the session** (`inHandler`: `break out`, then `Disconnect`): after the
+    well-formed traffic, a frame the reader rejects — oversize declaration, unknown command, bad
+    checksum, … — stops the loop with that error, and nothing that follows on the connection is
+    looked at, whatever it is.  There is no "skip and resynchronise". -/
+theorem C35_error_ends_session (H : Bytes → Bytes) (table : List (Bytes × Nat)) (decode : Bytes → Bytes → Option α)
+    (magic : Nat) (hH : ∀ b, 4 ≤ (H b).length) (hmagic : magic < 2 ^ 32)
+    (msgs : List (Bytes × Nat × Bytes)) (wire bad : Bytes) (k : Nat) (e : Err)
+    (hok : ∀ x ∈ msgs, CmdOK x.1 ∧ lookup table x.1 = some x.2.1 ∧ (decode x.1 x.2.2).isSome)
+    (hw : writeStream H magic msgs = some wire) (hne : bad ≠ [])
+    (hbad : (readMessage H table decode magic bad).res = .error e) :
+    readStream H table decode magic (msgs.length + (k + 1)) (wire ++ bad) = (expected decode msgs, some e) := by
+  rw [C35_stream_then H table decode magic hH hmagic msgs wire bad (k + 1) hok hw]
+  have hb : bad.isEmpty = false := by cases bad with | nil => exact absurd rfl hne | cons _ _ => rfl
+  simp [readStream, hb, hbad]
+
+/-- T-gen: the two read loops end on *every* read error: the error branch of `inHandler` (main net
+    and DPoS peers) finishes with `break out`, and the function disconnects after the loop. -/
+theorem C35_gen_read_loop :
+    Gen.C35.inHandlerErrEnds = ["break out", "break out"] ∧
+    Gen.C35.inHandlerAfterLoop.all (fun l => l.contains "p.Disconnect()") = true ∧
+    Gen.C35.inHandlerAfterLoop.length = 2 := by
+  decide
 
 /-- the largest `MaxLength` of a table -/
 def tableMax : List (Bytes × Nat) → Nat
